@@ -1,11 +1,359 @@
 import SageModel.Proto
+import SageModel.Model.C04
+import SageModel.Drv.C09
 
-/-! Driver ops for C04 (stub: no ops yet). -/
+/-! Driver ops for C04 (arithmetic at `Float32` / `Float`, same operations in the same order as the Rust code).
+
+```
+tol      := 0 u32(lo) u32(hi)      (ppm)   |   1 u32(lo) u32(hi)   (Da)
+pep      := h:seq [n u32 mod…] opt(u32 nterm) opt(u32 cterm) u32(monoisotopic)        (as in C09)
+peak     := u32(mass) u32(intensity)          mass = m/z − PROTON already applied (ProcessedSpectrum<Peak>)
+
+c04select tol u32(center) opt(u32 offset) [n peak…]          |  0 | 1 u32(mass) u32(intensity)
+
+score1 [k kind…] min_ion_index bucket [p pep…]               database (peptides ascending in monoisotopic mass)
+       tol(fragment) tol(precursor) opt(max_fragment_charge) min_isotope_err max_isotope_err
+       openms annotate min_matched_peaks
+       u32(precursor m/z) opt(precursor_charge) min_precursor_charge max_precursor_charge
+       u32(total_ion_current) [n peak…]
+   |  [f feature…]   sorted by (peptide index, charge, isotope error)   |  panic
+feature  := pep_ix u32(isotope_error) peptide_len charge u32(expmass) u32(calcmass) u32(delta_mass)
+            u32(average_ppm) u64(hyperscore) matched_peaks longest_b longest_y u32(longest_y_pct)
+            u32(matched_intensity_pct) scored_candidates u64(poisson) u32(ms2_intensity)
+            opt([m (kind charge ordinal u32(intensity) u32(mz_calculated) u32(mz_experimental))…])
+```
+
+`agree`: exact token equality, except for the two fields downstream of libm calls:
+* `hyperscore`: ≤ 4 ulp (f64) for `SageHyperScore` (one `ln` of the intensities + Stirling terms; Lean's
+  toolchain ships its own libm). For `OpenMSHyperScore` the code calls `f32::ln_1p`, which core Lean does not
+  have; the driver computes `log1p` in f64 and rounds once to f32, so the term may differ by an f32 ulp or two:
+  relative difference ≤ 1e-6.
+* `poisson`: ≤ 16 ulp, or an absolute difference ≤ 1e-12 (three libm calls, and `log10` of a value that may be
+  close to 1, where an ulp of the argument is many ulps of the result).
+NaNs are canonicalised on both sides (every NaN prints as the default quiet NaN).
+
+`spec` (on the IMPLEMENTATION's reply): every reported feature is recomputed naively (`specMatches` with the
+linear-scan window `specSelect`, `specVals`, `specLongest`, `specHyperscore`, `feature`) and compared field by
+field — sums are formed in the order of the property's enumeration (kinds, ion index, charge), which is the
+code's order, so they are compared bit-exactly; hyperscore/poisson with the allowances above. `longest_b/y` are
+checked against `specLongest` when at most one configured kind feeds the terminus' counter (with several kinds
+per terminus the shared counter sees restarting index sequences: modelled and compared, not specified).
+`na`: a negative or NaN intensity / NaN mass in the spectrum (outside the property's domain: intensities ≥ 0).
+-/
 namespace Sage.C04
 open Sage.Proto
+open Sage.C09 (Kind RawPep pRaw f32OfBits constsF)
+open Sage.C03 (Tol)
+
+def f64Lit (x : Float) : Float := x
+
+/-- `f32::ln_1p` then `as f64`, via an f64 `log1p` (classical `x·log(u)/(u−1)` form) rounded once to f32 -/
+def ln1p32 (x : Float32) : Float :=
+  let xd := x.toFloat
+  let u := 1.0 + xd
+  let r := if u == 1.0 then xd else if (u - 1.0).isInf then Float.log u else Float.log u * xd / (u - 1.0)
+  r.toFloat32.toFloat
+
+def E32 : Env Float32 Float :=
+  { add := (· + ·), sub := (· - ·), mul := (· * ·), div := (· / ·), abs := Float32.abs, neg := fun x => -x,
+    ofNat := Float32.ofNat,
+    proton := f32OfBits Sage.Gen.PROTON_bits, neutron := f32OfBits Sage.Gen.NEUTRON_bits,
+    cast := Float32.toFloat,
+    addD := (· + ·), subD := (· - ·), mulD := (· * ·), divD := (· / ·), negD := fun x => -x,
+    ofNatD := Float.ofNat, half := 0.5, pi := 3.14159265358979323846264338327950288, tiny := 0.0,
+    ln := Float.log, exp := Float.exp, log10 := Float.log10, ln1p := ln1p32,
+    isFinite := Float.isFinite, isInf := Float.isInf }
+
+/-! ### parsing -/
+
+def pTol : P (Tol Float32) := do
+  let k ← nat
+  let lo ← f32
+  let hi ← f32
+  match k with
+  | 0 => pure (.ppm lo hi)
+  | 1 => pure (.da lo hi)
+  | _ => failure
+
+def pPeak : P (Peak Float32) := do
+  let m ← f32
+  let i ← f32
+  pure { mass := m, intensity := i }
+
+/-! ### canonical output -/
+
+def canonF32 (x : Float32) : String := if x.isNaN then "2143289344" else outF32 x
+def canonF64 (x : Float) : String := if x.isNaN then "9221120237041090560" else outF64 x
+
+/-- token with the comparison class: `x` exact, `h` hyperscore (sage), `o` hyperscore (OpenMS), `p` poisson -/
+abbrev Tk := Char × String
+
+def kindNat : Kind → Nat
+  | .a => 0 | .b => 1 | .c => 2 | .x => 3 | .y => 4 | .z => 5
+
+def annToks (a : Ann Float32) : List Tk :=
+  [('x', toString (kindNat a.kind)), ('x', toString a.charge), ('x', toString a.ordinal),
+   ('x', canonF32 a.intensity), ('x', canonF32 a.mzCalc), ('x', canonF32 a.mzExp)]
+
+def featToks (openms : Bool) (f : Feat Float32 Float) : List Tk :=
+  [('x', toString f.pep), ('x', canonF32 f.isotopeError), ('x', toString f.peptideLen), ('x', toString f.charge),
+   ('x', canonF32 f.expmass), ('x', canonF32 f.calcmass), ('x', canonF32 f.deltaMass), ('x', canonF32 f.averagePpm),
+   (if openms then 'o' else 'h', canonF64 f.hyperscore),
+   ('x', toString f.matchedPeaks), ('x', toString f.longestB), ('x', toString f.longestY),
+   ('x', canonF32 f.longestYPct), ('x', canonF32 f.matchedIntensityPct), ('x', toString f.scoredCandidates),
+   ('p', canonF64 f.poisson), ('x', canonF32 f.ms2Intensity)] ++
+  (match f.ann with
+   | none => [('x', "0")]
+   | some l => [('x', "1"), ('x', toString l.length)] ++ l.flatMap annToks)
+
+def absF (x : Float) : Float := if x < 0.0 then -x else x
+
+def tokAgree (cls : Char) (m i : String) : Bool :=
+  if m == i then true else
+  match cls, m.toNat?, i.toNat? with
+  | 'h', some a, some b =>
+    let x := Float.ofBits a.toUInt64; let y := Float.ofBits b.toUInt64
+    !x.isNaN && !y.isNaN && ulpDistF64 x y ≤ 4
+  | 'o', some a, some b =>
+    let x := Float.ofBits a.toUInt64; let y := Float.ofBits b.toUInt64
+    x.isFinite && y.isFinite && absF (x - y) ≤ 1.0e-6 * (if absF x < 1.0 then 1.0 else absF x)
+  | 'p', some a, some b =>
+    let x := Float.ofBits a.toUInt64; let y := Float.ofBits b.toUInt64
+    !x.isNaN && !y.isNaN && (ulpDistF64 x y ≤ 16 || absF (x - y) ≤ 1.0e-12)
+  | _, _, _ => false
+
+def toksAgree : List Tk → List String → Bool
+  | [], [] => true
+  | (c, m) :: ms, i :: is => tokAgree c m i && toksAgree ms is
+  | _, _ => false
+
+/-- first position at which two token lists disagree -/
+def firstDiff : List Tk → List String → Nat → Option Nat
+  | [], [], _ => none
+  | (c, m) :: ms, i :: is, k => if tokAgree c m i then firstDiff ms is (k + 1) else some k
+  | _, _, k => some k
+
+/-! ### the `score1` computation -/
+
+structure Req where
+  kinds : List Kind
+  minIdx : Nat
+  raws : List RawPep
+  ftol : Tol Float32
+  ptol : Tol Float32
+  mfcCfg : Option Nat
+  isoLo : Int
+  isoHi : Int
+  openms : Bool
+  annotate : Bool
+  minMatched : Nat
+  precMz : Float32
+  z : Option Nat
+  minPc : Nat
+  maxPc : Nat
+  tic : Float32
+  peaks : List (Peak Float32)
+
+def allSomeK : List (Option Kind) → Option (List Kind)
+  | [] => some []
+  | none :: _ => none
+  | some x :: xs => (allSomeK xs).map (x :: ·)
+
+def pReq : P Req := do
+  let kindNs ← list nat
+  let minIdx ← nat
+  let _bucket ← nat
+  let raws ← list pRaw
+  let ftol ← pTol
+  let ptol ← pTol
+  let mfcCfg ← opt nat
+  let isoLo ← int
+  let isoHi ← int
+  let openms ← bool
+  let annotate ← bool
+  let minMatched ← nat
+  let precMz ← f32
+  let z ← opt nat
+  let minPc ← nat
+  let maxPc ← nat
+  let tic ← f32
+  let peaks ← list pPeak
+  match allSomeK (kindNs.map Kind.ofNat?) with
+  | none => failure
+  | some kinds =>
+    pure { kinds, minIdx, raws, ftol, ptol, mfcCfg, isoLo, isoHi, openms, annotate, minMatched, precMz, z, minPc, maxPc, tic, peaks }
+
+/-- the precursor charges `initial_hits` searches: the annotated one, else `min..=max` -/
+def Req.charges (r : Req) : List Nat :=
+  match r.z with
+  | some z => [z]
+  | none => List.range' r.minPc (r.maxPc + 1 - r.minPc)
+
+/-- requests the model covers: well-formed peptides (C09 domain), ascending peptide masses, ascending peak
+    masses, no NaN mass, small charges -/
+def Req.covered (r : Req) : Bool :=
+  r.raws.all (fun p => p.seq.length ≥ 1 && p.mods.length ≥ p.seq.length) &&
+  (let ms := r.raws.map (fun p => f32OfBits p.mass)
+   (ms.zip (ms.drop 1)).all (fun ab => decide (ab.1 ≤ ab.2))) &&
+  (let ms := r.peaks.map (·.mass)
+   ms.all (fun m => !m.isNaN) && (ms.zip (ms.drop 1)).all (fun ab => decide (ab.1 ≤ ab.2))) &&
+  r.charges.all (fun z => z ≥ 1 && z < 64) && r.maxPc < 64 && (match r.mfcCfg with | some c => c < 64 | none => true) &&
+  r.isoLo ≤ r.isoHi && r.isoLo ≥ -8 && r.isoHi ≤ 8
+
+/-- the property's domain: intensities ≥ 0 (and not NaN) -/
+def Req.inDomain (r : Req) : Bool :=
+  r.peaks.all (fun p => decide ((0.0 : Float32) ≤ p.intensity))
+
+/-- more than one configured kind feeding the b-side (resp. y-side) counter -/
+def Req.multiN (r : Req) : Bool := (r.kinds.filter (·.isN)).length > 1
+def Req.multiC (r : Req) : Bool := (r.kinds.filter (fun k => !k.isN)).length > 1
+
+/-- `useSpec = false`: the model (code-mirroring loop, binary search, `Run`);
+    `useSpec = true`: the naive recomputation -/
+def compute (r : Req) (useSpec : Bool) : List (Feat Float32 Float) :=
+  let peps := r.raws.map RawPep.toF
+  let mz := r.precMz - E32.proton
+  let fragsOf (i : Nat) : List Float32 :=
+    match peps[i]? with
+    | none => []
+    | some p => (Sage.C09.pepFragments constsF r.kinds r.minIdx i p).map (·.2)
+  let pres := r.charges.flatMap fun z =>
+    prelim E32 r.ftol r.ptol r.peaks z (maxFragmentCharge r.mfcCfg z) (mz * Float32.ofNat z)
+      (isotopes r.isoLo r.isoHi) (peps.map (·.mass)) fragsOf
+  let total := (pres.map (·.matched)).sum
+  let nScored := pres.length
+  let peakArr := r.peaks.toArray
+  -- the harness sorts the features by (peptide index, isotope error)
+  let pres := pres.mergeSort (fun a b => a.pep < b.pep || (a.pep == b.pep &&
+    (a.charge < b.charge || (a.charge == b.charge && a.iso ≤ b.iso))))
+  pres.filterMap fun pre =>
+    match peps[pre.pep]? with
+    | none => none
+    | some p =>
+      let n := p.residues.length
+      let mfc := maxFragmentCharge r.mfcCfg pre.charge
+      let pm := mz * Float32.ofNat pre.charge
+      let series := r.kinds.map (fun k => (k, Sage.C09.ions constsF k p))
+      let fzs := fragCharges series mfc
+      let s : Scored Float32 Float :=
+        if useSpec then
+          let sel := fun (mz : Float32) =>
+            let b := tolBounds E32 r.ftol mz
+            specSelect r.peaks b.1 b.2
+          let v : SpecVals Float32 Float := specVals E32 n (specMatches E32 sel fzs)
+          { matchedB := v.nb, matchedY := v.ny, summedB := v.ib, summedY := v.iy,
+            longestB := specLongest v.idxB, longestY := specLongest v.idxY,
+            hyperscore := if r.openms then scoreOf E32 true v.nb v.ny v.ib v.iy else specHyperscore E32 v.nb v.ny v.ib v.iy,
+            ppm := v.ppmNum / (v.ib + v.iy),
+            ann := if r.annotate then some v.rows else none }
+        else
+          scoreCandidate E32 (fun mz => select E32 peakArr mz r.ftol none) series n mfc r.openms r.annotate
+      if s.matchedB + s.matchedY ≥ r.minMatched then
+        some (feature E32 pre s n pre.charge pm p.mass r.tic total nScored)
+      else none
+
+def renderFeats (openms : Bool) (fs : List (Feat Float32 Float)) : List Tk :=
+  ('x', toString fs.length) :: fs.flatMap (featToks openms)
+
+def tkString (l : List Tk) : String := " ".intercalate (l.map (·.2))
+
+/-! ### spec verdict on the implementation's features -/
+
+/-- split the implementation's reply into per-feature token lists (using the known layout) -/
+def splitFeat (toks : List String) : Option (List String × List String) :=
+  -- 17 fixed tokens, then `0` or `1 m (6 tokens)×m`
+  if toks.length < 18 then none else
+  let fixed := toks.take 17
+  let rest := toks.drop 17
+  match rest with
+  | "0" :: tl => some (fixed ++ ["0"], tl)
+  | "1" :: m :: tl =>
+    match m.toNat? with
+    | some k => if tl.length < 6 * k then none else some (fixed ++ ["1", m] ++ tl.take (6 * k), tl.drop (6 * k))
+    | none => none
+  | _ => none
+
+def splitFeats : Nat → List String → Option (List (List String))
+  | 0, [] => some []
+  | 0, _ => none
+  | k+1, toks => do
+    let (f, rest) ← splitFeat toks
+    let fs ← splitFeats k rest
+    pure (f :: fs)
+
+def fieldNames : List String :=
+  ["peptide_idx", "isotope_error", "peptide_len", "charge", "expmass", "calcmass", "delta_mass", "average_ppm",
+   "hyperscore", "matched_peaks", "longest_b", "longest_y", "longest_y_pct", "matched_intensity_pct",
+   "scored_candidates", "poisson", "ms2_intensity"]
+
+/-- compare one implementation feature (tokens) with the spec's feature; name of the first bad clause -/
+def featClause (r : Req) (want : Feat Float32 Float) (got : List String) : Option String :=
+  let wt := featToks r.openms want
+  let skip (name : String) : Bool :=
+    (name == "longest_b" && r.multiN) || ((name == "longest_y" || name == "longest_y_pct") && r.multiC)
+  let rec go : List Tk → List String → Nat → Option String
+    | [], [], _ => none
+    | (c, m) :: ms, i :: is, k =>
+      let name := fieldNames.getD k "fragments"
+      if skip name || tokAgree c m i then go ms is (k + 1) else some name
+    | _, _, _ => some "fragments"
+  go wt got 0
+
+def specVerdict (r : Req) (impl : List String) : String :=
+  if !r.covered || !r.inDomain then "na" else
+  if impl == ["panic"] then "bad:panic" else
+  match impl with
+  | [] => "bad:shape"
+  | cnt :: rest =>
+    match cnt.toNat? with
+    | none => "bad:shape"
+    | some k =>
+      match splitFeats k rest with
+      | none => "bad:shape"
+      | some feats =>
+        let wants := compute r true
+        -- every reported feature must be one the definition yields, with the definition's values
+        let bad := feats.findSome? fun got =>
+          match wants.find? (fun w => some (toString w.pep) == got[0]? && some (canonF32 w.isotopeError) == got[1]? &&
+              some (toString w.charge) == got[3]?) with
+          | none => some "unknown_candidate"
+          | some w => featClause r w got
+        match bad with
+        | some c => s!"bad:{c}"
+        | none => "ok"
+
+/-! ### `c04select` -/
 
 def handle (op : String) (args impl : List String) : Option Reply :=
   match op with
+  | "c04select" => do
+    let (tol, center, off, peaks) ← run (do
+      let t ← pTol; let c ← f32; let o ← opt f32; let p ← list pPeak; pure (t, c, o, p)) args
+    let out (r : Option (Peak Float32)) : String :=
+      match r with
+      | none => "0"
+      | some p => s!"1 {canonF32 p.mass} {canonF32 p.intensity}"
+    let model := out (select E32 peaks.toArray center tol off)
+    let b := tolBounds E32 tol center
+    let o := off.getD (Float32.ofNat 0)
+    let dom := peaks.all (fun p => decide ((0.0 : Float32) ≤ p.intensity) && !p.mass.isNaN)
+    let spec : String :=
+      if !dom then "na" else
+      let want := out (specSelect peaks (b.1 + o) (b.2 + o))
+      if words want == impl then "ok"
+      else match specSelect peaks (b.1 + o) (b.2 + o), impl with
+        | none, _ => "bad:matched_without_peak_in_window"
+        | some _, ["0"] => "bad:peak_in_window_not_matched"
+        | some _, _ => "bad:not_most_intense"
+    pure (exact model (" ".intercalate impl) spec)
+  | "score1" => do
+    let r ← run pReq args
+    if !r.covered then
+      pure { model := "uncovered", agree := false, spec := "na" }
+    else
+    let m := renderFeats r.openms (compute r false)
+    let agree := toksAgree m impl
+    pure { model := tkString m, agree := agree, spec := specVerdict r impl }
   | _ => none
 
 end Sage.C04
